@@ -214,3 +214,18 @@ func attributeBuildErrors(out string) map[string][]string {
 }
 
 func caseDir(i int) string { return fmt.Sprintf("c%04d", i) }
+
+// runCmdEnv is runCmd with extra environment variables.
+func runCmdEnv(dir string, timeout time.Duration, extraEnv []string, name string, args ...string) CmdResult {
+	ctx, cancel := context.WithTimeout(context.Background(), timeout)
+	defer cancel()
+	cmd := exec.CommandContext(ctx, name, args...)
+	cmd.Dir = dir
+	cmd.Env = append(goEnv(), extraEnv...)
+	var buf bytes.Buffer
+	cmd.Stdout = &buf
+	cmd.Stderr = &buf
+	t0 := time.Now()
+	err := cmd.Run()
+	return CmdResult{Err: err, Out: buf.String(), TimedOut: ctx.Err() == context.DeadlineExceeded, Dur: time.Since(t0)}
+}
